@@ -55,3 +55,22 @@ fn full_range() {
     println!("F2 {}", q(&db, "SELECT b, a, count(1) FROM t"));
     println!("F3 {}", q(&db, "SELECT a, count(1) FROM t"));
 }
+
+#[test]
+fn narrow_nullable() {
+    let db = mem();
+    // nullable column whose values fill u8: 0..=255, NULL in the last two rows
+    let mut tb = TableBuffer::default();
+    for i in 0..258i64 {
+        let mut row = vec![("id".to_string(), locustdb_serialization::api::AnyVal::Int(i))];
+        if i < 256 { row.push(("a".to_string(), locustdb_serialization::api::AnyVal::Int(i))); }
+        tb.push_row_and_timestamp(row);
+    }
+    let mut tables = HashMap::new();
+    tables.insert("t".to_string(), tb);
+    block_on(db.ingest_efficient(EventBuffer { tables }));
+    db.force_flush();
+    println!("N0 {}", q(&db, "SELECT count(1) FROM t WHERE a IS NULL"));
+    println!("N1 {}", q(&db, "SELECT a, count(1) FROM t WHERE a > 250"));
+    println!("N2 {}", q(&db, "SELECT a, count(1) FROM t WHERE id > 250"));
+}
